@@ -126,6 +126,7 @@ def gen(seed, run, tier='quick'):
          'call': rng.choice([1, 2]), 'clock': rng.choice([0, 1, 3]),
          'tick': rng.choice([0, 0, 1, 2]),
          'bad_validity': rng.choice([0, 1, 2]),
+         'datetime_validity': rng.choice([0, 0, 1]),
          'mixed_kind': rng.choice([0, 1, 2])}
     sym_cur_p = rng.choice([0, 0.15, 0.4])
     kinds = list(w)
@@ -183,6 +184,33 @@ def gen(seed, run, tier='quick'):
     def some_date():
         return rng.choice(pool_far if rng.random() < 0.2 else pool)
 
+    if n_cur >= 3 and rng.random() < 0.05:
+        # boundary values: two base rates whose quotient (scaled the way an
+        # exchange rate stores it: 6 decimals at its unit multiple) lies
+        # within 5e-6 of a rounding tie - any extra intermediate rounding
+        # of a triangulated rate shows here and practically nowhere else
+        pair = None
+        for _ in range(200000):
+            a_ = rng.randrange(4 * 10 ** 8, 5 * 10 ** 8)
+            b_ = rng.randrange(10000, 12500)
+            r_ = (b_ * 10 ** 10) % a_
+            d_ = abs(2 * r_ - a_)
+            if 0 < d_ < a_ // 100000 and a_ % 10 and b_ % 10:
+                pair = (a_, b_)
+                break
+        if pair:
+            base = convs[0]['base']
+            xs = [j for j in range(n_cur) if j != base][:2]
+            sa, sb = str(pair[0]).rjust(7, '0'), str(pair[1]).rjust(7, '0')
+            ops.append(['update', 0,
+                        _spell_validity(rng, convs[0]['kind'], some_date()),
+                        [[[xs[0], 'obj'],
+                          {'t': 'dec', 'v': sa[:-6] + '.' + sa[-6:]},
+                          {'t': 'int', 'v': 1}],
+                         [[xs[1], 'obj'],
+                          {'t': 'dec', 'v': sb[:-6] + '.' + sb[-6:]},
+                          {'t': 'int', 'v': 1}]]])
+            used_primes.update(pair)
     while len(ops) < n_ops:
         k = rng.choices(kinds, weights)[0]
         ci = rng.randrange(n_conv)
@@ -191,6 +219,12 @@ def gen(seed, run, tier='quick'):
             ops.append(['update', ci, v, rate_specs(ci)])
         elif k == 'bad_validity':
             ops.append(['update', ci, rng.choice(INVALID_VALIDITIES),
+                        rate_specs(ci)])
+        elif k == 'datetime_validity':
+            d = some_date()
+            ops.append(['update', ci,
+                        {'t': 'datetime',
+                         'v': f"{d.isoformat()}T{rng.randrange(24):02d}:30"},
                         rate_specs(ci)])
         elif k == 'mixed_kind':
             other = rng.choice([x for x in ('none', 'year', 'month', 'day')
@@ -440,6 +474,8 @@ def execute(h):
             return list(x)
         if t == 'date':
             return dt.date.fromisoformat(x)
+        if t == 'datetime':
+            return dt.datetime.fromisoformat(x)
         raise core.HarnessError(f"validity {v}")
 
     def base_rate(ci, cur, d):
@@ -611,6 +647,32 @@ def execute(h):
                     continue
                 if not specs:
                     bump(probes, 'update_without_rate_specs')
+                if op[2]['t'] == 'datetime':
+                    # A datetime is a date, but not a documented spelling of
+                    # a day.  Before the kind is fixed the statement says
+                    # nothing about it (skipped).  Afterwards there are two
+                    # sound answers: reject it (it is not of the converter's
+                    # kind), or - on a converter with daily rates - take it
+                    # as that day.  Anything else is mixing kinds.
+                    if model.kind is None:
+                        log.append([i, 'skipped'])
+                        continue
+                    bump(faults, 'datetime_as_validity')
+                    dv = dt.datetime.fromisoformat(op[2]['v'])
+                    lib = [(curs[c] if how == 'obj' else curs[c].symbol,
+                            mk_amount(amt), mk_um(um))
+                           for (c, how), amt, um in specs]
+                    o = observe(lambda: ('ok', convs[ci].update(dv, lib)))
+                    if o[0] == 'ok':
+                        if model.kind != 'day':
+                            violate('update', 'accepted_invalid', i,
+                                    validity=op[2], kind_before=model.kind,
+                                    observed=list(o))
+                        model.update({'t': 'date',
+                                      'v': dv.date().isoformat()}, specs)
+                    log.append([i, op[0], o[0] if o[0] == 'ok' else o[1],
+                                sweep(i)])
+                    continue
                 lib_specs = []
                 for (cur, how), amt, um in specs:
                     cobj = curs[cur] if how == 'obj' else curs[cur].symbol
